@@ -68,6 +68,8 @@ ITEMS = {
     "call": (lambda p: ["z = g(x)"], {"x"}, {"z"}),
 }
 RETURNS = ("x", "y", "z")
+# tier -> (N for the single-function families A and B, [(N_f, N_g) for the cross family C])
+BOUNDS = {"quick": (3, [(2, 1)]), "thorough": (4, [(3, 1), (2, 2)])}
 G_DEFAULT = (("yv1",), "y")          # y = v + 1; return y
 F_IDENTITY = (("xa",), "x")          # x = a; return x
 
@@ -117,7 +119,7 @@ def render(fbody, gbody) -> str:
 
 def programs(tier: str) -> list[tuple[str, str]]:
     """(family, source) for the whole stated space, duplicates removed, fixed order."""
-    n_single, n_cross_f, n_cross_g = (3, 2, 2) if tier == "quick" else (4, 3, 2)
+    n_single, cross = BOUNDS[tier]
     seen, out = set(), []
 
     def add(fam, fb, gb):
@@ -130,10 +132,11 @@ def programs(tier: str) -> list[tuple[str, str]]:
         add("A", fb, G_DEFAULT)
     for gb in bodies(n_single, call=False):
         add("B", F_IDENTITY, gb)
-    gsmall = bodies(n_cross_g, call=False)
-    for fb in bodies(n_cross_f, call=True):
-        for gb in gsmall:
-            add("C", fb, gb)
+    for nf, ng in cross:
+        gsmall = bodies(ng, call=False)
+        for fb in bodies(nf, call=True):
+            for gb in gsmall:
+                add("C", fb, gb)
     return out
 
 
@@ -590,10 +593,11 @@ def run(ctx):
     ctx.require(len(c.sets.get("demand_shapes", ())) > 20, "vacuous: too few distinct demanded line sets")
     ctx.require(len(c.sets.get("outcomes", ())) > 5, "vacuous: too few distinct outcomes")
     ctx.require(len(c.sets.get("assertion_coverages", ())) > 3, "vacuous: assertion coverage never varied")
-    n_single, n_cross_f, n_cross_g = (3, 2, 2) if ctx.quick else (4, 3, 2)
+    n_single, cross = BOUNDS[ctx.tier]
     ctx.note("bounds", {"family_A": f"f: <= {n_single} menu statements (+return), g fixed 'y = v + 1; return y'",
                         "family_B": f"g: <= {n_single} menu statements (+return), f fixed 'x = a; return x'",
-                        "family_C": f"f: <= {n_cross_f} x g: <= {n_cross_g} menu statements (+return)",
+                        "family_C": "all pairs with (f <= Nf, g <= Ng) menu statements (+return) for (Nf, Ng) in "
+                                    + str(cross),
                         "inputs": list(INPUTS), "menu": sorted(ITEMS)})
     ctx.note("programs_total", len(progs))
     ctx.exhaustive = True
